@@ -20,7 +20,7 @@ for d in sorted(glob.glob("/verif/seeded/*/")):
     stale = "has no faithful counterpart" in m.get("note", "")
     rows.append((wave, m["breaks_property"], first, final, stale))
 stats = "| wave | changes | caught at first evaluation (any check / the property's own check) | caught by the final framework (any / own) |\n|---|---|---|---|\n"
-for w in ["1", "2", "3", "4", "5", "own"]:
+for w in ["1", "2", "3", "4", "5", "6", "own"]:
     rs = [r for r in rows if r[0] == w]
     if not rs:
         continue
@@ -31,7 +31,7 @@ text = head + '''
 %d changes to ts-rs were produced by fresh sub-agents that saw **only the text of one property and
 a scratch worktree** (nothing from /verif; from wave 5 on also one line per earlier change for that
 property, with the instruction to find a different mechanism). Each was asked for two realistic
-changes that break the property, still compile and pass the repository's 471 tests, and need something
+changes (wave 6: one) that break the property, still compile and pass the repository's 471 tests, and need something
 specific to manifest. I kept a change only after confirming all of that myself (`tools/trial.py
 verify`: apply in a scratch worktree, run the suite, run the author's demonstration without and with
 the change). They live in `seeded/<id>/` (`patch.diff`, `demo.rs`, `notes.md`, `meta.json` with what
@@ -87,7 +87,37 @@ the framework as it stood when the wave was produced):
   (and by H4 / treating ill-formed references as violations); the sub-agents' side observations led to
   findings F28, F29.
 
-With the final framework every re-runnable change is caught (`seeded/final_run2.log` for waves 1-4, `seeded/final_run3.log` for wave 5, `seeded/final_run4.log` = the 35 export-related changes of waves 1-4 once more after hook H4 and the last extensions: own check +
+* **wave 6** (all 17 properties, one change per agent, same adversarial briefing as wave 5; measured on the
+  framework of the session before - commits acbd9b5 / d02a711): 6 changes were missed at first evaluation and one
+  (C11-w6m1) ended in a machinery error in two neighbouring checks while its own check caught it. A new
+  mechanism class appeared twice: **state that the change adds and that survives between calls** - a
+  process-wide "already exported" memo keyed without the directory (C11-w6m1, C03-w6m1 - written
+  independently), and a `static OnceLock` inside the *generated* `inline()` that all instantiations of a
+  generic type share (C07-w6m1). What the misses needed and how they were closed (families, not the failing
+  input): a nullable inside a container inside a nullable (C12; the lib corpus now has every word of length 3
+  over 8 constructors with values built compositionally, 490 types at quick); a generic type whose only
+  field is flattened, asked for a concrete instantiation and for its declaration in one process (C07;
+  lone-/two-flattened-parameter families, and a **call-order twin of every generic case**: a concrete
+  instantiation is asked for `inline()`, `decl_concrete()`, `name()` before the generic declaration is
+  first asked for, plus "a declaration asked again after the body is the same text" in every E2 case); a
+  struct made only of flattened members of the shape enum-struct-enum, flattened alone (C14; every word
+  without repetition of length <= 3 over struct / generic / two enum representations now goes through
+  every presentation); a documented field next to a flattened one with ` } & { ` in the text (C15; three
+  new documentation positions - this change re-introduced the defect F22 by another route); `#[ts(skip)]`
+  together with a serde entry that is invalid at that position (C10; `ts(skip)` x every serde entry of every
+  slot x 12 skippable positions x both orders); a transparent wrapper around `Option` under
+  `optional_fields` (C01; caught by C12's `optional_fields` rule only - family added to the main corpus);
+  `Option<D::Assoc>` of a concretised parameter under non-nullable `optional` (C16; family "associated
+  types of a concretised parameter" compared with the item that writes the type out). The scheduler's
+  reproducibility pre-check now distinguishes "first use takes another path but the result is the
+  reference tree" (settles - explored) from a wrong tree on the default schedule (violation) - before,
+  both ended in a machinery error. Two changes are caught only by a neighbour because of what they violate
+  as they manifest: C06-w6m1 releases the registry lock (an interleaving matter: C05/C13; C06 quantifies
+  over sequential histories), C05-w6m1 registers before writing (shows only after a failed write: C17).
+  Independently of the wave, the schedule explorer's program alphabet became systematic (all 300 pairs of
+  one-call threads over the universe x both entry points, next to the hand-picked programs).
+
+With the final framework every re-runnable change is caught (`seeded/final_run2.log` for waves 1-4, `seeded/final_run3.log` for wave 5, the `checks_run` of each `seeded/*-w6m1/meta.json` for wave 6, `seeded/final_run4.log` = the 35 export-related changes of waves 1-4 once more after hook H4 and the last extensions: own check +
 every check that ever reported the change, re-run on the final tree) and no check ended in a machinery
 error. Changes caught only by neighbouring checks are those where the change, as it manifests, does not
 violate the target property's own clause (e.g. C13-m1 after its port is deterministic but leaves import
